@@ -5,6 +5,8 @@ import AfkakProofs.Consumer.Inv3
 namespace Afkak.Proofs.Consumer
 open Afkak.Consumer Afkak.Monitor Afkak.Consts
 
+variable [EnvHyp]
+
 theorem stopReq_pres (cfg : Cfg) : Pres cfg (stopReq cfg) := by
   intro s hs
   have hx := Good.refl hs
@@ -22,8 +24,13 @@ theorem stopReq_pres (cfg : Cfg) : Pres cfg (stopReq cfg) := by
       rw [hs.sf.sfReq, hreq]; cases c <;> rfl
     have h1 : Good cfg s { emit (.cancelReq k) s with requestD := .pending k kind true } := by leaf hx
     split
-    · split
-      · exact handleFetchError_good cfg _ h1 rfl hpk
+    · rename_i ek tag henv
+      split
+      · refine handleFetchError_good cfg _ h1 rfl hpk (fun hP ho => ?_)
+        have hek : ek = .outOfRange := by cases ek <;> simp [Fail.isOutOfRange] at ho ⊢
+        subst hek
+        have : s.envReq = some (.outOfRange, tag) := by simpa [emit] using henv
+        exact absurd rfl ((hs.inc hP).envOk _ _ this)
       · exact handleOffsetError_good cfg _ h1 rfl hpk
     · exact h1
   · exact hx
@@ -50,8 +57,8 @@ theorem stopBlockProc_good {s0 s : St} (h : Good cfg s0 s) (hst : s.stopping = t
       | none => rfl
       | some fr => exact absurd (h.1.g1.frameProc (by rw [hff]; rfl)) (by rw [hp]; simp)
     simp only [stopBlock_proc, hp]
-    obtain ⟨g1, p1, st1⟩ := procFired_stop_good hin g (.ext .cancelled 0) h.1 hp hst
-    have h2 := fun p => procResume_good hin hc g p g1 p1 (by rw [g1.2]; exact hf) (Or.inr st1)
+    obtain ⟨g1, p1, st1, l1, y1⟩ := procFired_stop_good hin g (.ext .cancelled 0) h.1 hp hst
+    have h2 := fun p => procResume_good hin hc g p g1 p1 (by rw [g1.2]; exact hf) (Or.inr st1) l1 y1
     refine Good.trans h ?_
     unfold procResult
     simp only []
@@ -138,17 +145,31 @@ theorem opsN_pres (cfg : Cfg) : ∀ n, OpsPres cfg (opsN cfg n)
   | 0 => ⟨crash_pres cfg _, crash_pres cfg _, crash_pres cfg _, crash_pres cfg _⟩
   | n + 1 => mkOps_pres (opsN_pres cfg n) (opsN_calm cfg n) (opsN_quiet cfg n) (opsN_procNone cfg n)
 
+theorem start_good_restart (cfg : Cfg) (off : Int) {s : St} (hs : G cfg s) (hf : s.frame = none)
+    (hlc : (runR C03.ackStep {} s.out).lc = s.lastCommitted) (hrun : s.startD ≠ .none) :
+    Good cfg s (emit .raisedRestart { s with out := .ev (.start off) :: s.out }) := by
+  have hx := Good.refl hs
+  leaf hx
+
+theorem start_good_fresh (cfg : Cfg) (off : Int) {s : St} (hs : G cfg s) (hf : s.frame = none)
+    (hlc : (runR C03.ackStep {} s.out).lc = s.lastCommitted) (hrun : s.startD = .none) :
+    Good cfg s { ({ s with out := .ev (.start off) :: s.out } : St) with startD := .pending, fetchOffset := off } := by
+  have hx := Good.refl hs
+  leaf hx
+
 /-- `start()` (an application call from outside the processor), with its event -/
 theorem start_good (cfg : Cfg) (off : Int) {s : St} (hs : G cfg s) (hf : s.frame = none)
     (hlc : (runR C03.ackStep {} s.out).lc = s.lastCommitted) :
     Good cfg s (start cfg off { s with out := .ev (.start off) :: s.out }) := by
-  have hx := Good.refl hs
   unfold start
   split
-  · leaf hx
-  · simp only []
+  · rename_i hr
+    exact start_good_restart cfg off hs hf hlc (by simpa using hr)
+  · rename_i hr
+    simp only []
     have h1 := doFetch_good cfg (s0 := s)
-      (s := { ({ s with out := .ev (.start off) :: s.out } : St) with startD := .pending, fetchOffset := off }) (by leaf hx) (by simp)
+      (s := { ({ s with out := .ev (.start off) :: s.out } : St) with startD := .pending, fetchOffset := off })
+      (start_good_fresh cfg off hs hf hlc (by simpa using hr)) (by simp)
     split
     · leaf h1
     · exact h1
